@@ -91,26 +91,26 @@ CHECKS = {
 
 # additions made after the independently seeded changes (rounds 1-3); appended to the level text
 EXTRA = {
-    "C01": "Hostile values: Stringer / error implementations that panic.",
-    "C02": "64-bit integers beside float32/float64 rounding ties; zero-padded and prefixed numeric strings.",
-    "C03": "Long lists (1023..3000, thorough 70000) with predicates that depend on the absolute index.",
-    "C04": "Direct probes: callbacks that panic at their k-th invocation (receiver and earlier results untouched), variadic arguments spread from a slice the caller keeps.",
-    "C05": "Earlier results re-checked after later calls on spare-capacity receivers; operands of 260..1500 elements; pointer elements with equal contents but different identity.",
-    "C06": "Burst histories up to 66000 (thorough 262200) held elements with GC paused.",
-    "C07": "Back-pressure runs with a blocking Take() consumer and a delivery-progress monitor; 'no limit' buffer sizes.",
-    "C08": "Phased bursts above 1024 held values; a self-refilling BufferedChannelQueue under the wrapper; one LinkedListQueue behind both wrappers in phases.",
-    "C09": "Two pools on one job queue; slow panic handlers; standby-0 pools always sampled; boundary timeouts through ScheduleWithTimeout / InvokeWithTimeout.",
-    "C10": "Values published on derived publishers; re-subscription of copied subscription values; deliveries pending on a busy SubscribeOn handler while subscriptions change.",
-    "C11": "Branching compositions; pending deliveries of a counting MonadIO; carried values that are themselves MonadIOs; re-configuration in flight.",
-    "C12": "Close from the running work with buffered items and blocked senders; closed while busy; timed-out Asks as messages.",
-    "C13": "Caller supplied reply channels; near-timeout then long-timeout histories (old timer-channel semantics selected); non-positive timeouts; requests queued behind a busy actor.",
-    "C14": "Target held back until its request channel is full; YieldFromIO whose effect uses YieldFrom; back-to-back Start calls.",
-    "C15": "Caller completing inside its own YieldFrom; job queue closed under an open pool; pool churn (thousands of short-lived pools closed under load).",
-    "C16": "Long lists; nested PMap; one option value reused across calls.",
-    "C17": "Connection-level faults on the first round trip only; response bodies up to 4 MiB on loopback; slice / map / value body types.",
-    "C18": "Two instances on one client; the held client with a replaced Transport; long histories with redirects and many refused requests.",
-    "C19": "Second and mixed record types; forked builders; extreme keys; signed zeros for stability.",
-    "C20": "MarkDone / Result inside the curried function; nested sum types; panicking effects; Equal patterns on pointers.",
+    "C01": "Hostile values: Stringer / error implementations that panic. Same-named local types, typed nil pointers of Stringer types, named pointer types, sentinel strings such as <nil>.",
+    "C02": "64-bit integers beside float32/float64 rounding ties; zero-padded and prefixed numeric strings. Strings with bytes of no numeric syntax must be rejected; ToBool of numeric strings.",
+    "C03": "Long lists (1023..3000, thorough 70000) with predicates that depend on the absolute index. Callbacks with memory (call logs, first-occurrence / budget predicates); maps with NaN keys.",
+    "C04": "Direct probes: callbacks that panic at their k-th invocation (receiver and earlier results untouched), variadic arguments spread from a slice the caller keeps. Predicates with memory, stable Sort of tying records, SortByIndex comparator views, rows as elements.",
+    "C05": "Earlier results re-checked after later calls on spare-capacity receivers; operands of 260..1500 elements; pointer elements with equal contents but different identity. Mixed dynamic types in the interface{} family; a foreign SetDef implementation as operand; 3..300 operands.",
+    "C06": "Burst histories up to 66000 (thorough 262200) held elements with GC paused. Eight other instantiations alive in one process; bulk release of spare nodes followed by pauses; a queue held by value.",
+    "C07": "Back-pressure runs with a blocking Take() consumer and a delivery-progress monitor; 'no limit' buffer sizes. Other instantiations through the overflow list; idle periods of about 100 loader intervals; the back-pressure verdict is taken on logical time.",
+    "C08": "Phased bursts above 1024 held values; a self-refilling BufferedChannelQueue under the wrapper; one LinkedListQueue behind both wrappers in phases. A user queue embedding ChannelQueue; other instantiations; wrapped structures that panic once.",
+    "C09": "Two pools on one job queue; slow panic handlers; standby-0 pools always sampled; boundary timeouts through ScheduleWithTimeout / InvokeWithTimeout. Jobs ending with runtime.Goexit or run-time errors; stand-by size above the maximum.",
+    "C10": "Values published on derived publishers; re-subscription of copied subscription values; deliveries pending on a busy SubscribeOn handler while subscriptions change. Subscribe before/after SubscribeOn; Unsubscribe on a foreign publisher.",
+    "C11": "Branching compositions; pending deliveries of a counting MonadIO; carried values that are themselves MonadIOs; re-configuration in flight. Inner monads with their own handlers; the package default Handler as first call of the process; 8 concurrent evaluations; every program under the stuck detector.",
+    "C12": "Close from the running work with buffered items and blocked senders; closed while busy; timed-out Asks as messages. IsClosed polled during traffic; first submissions to thousands of fresh mailboxes racing each other; one sender interleaving AskChannel and Send; Close from outside with a backlog.",
+    "C13": "Caller supplied reply channels; near-timeout then long-timeout histories (old timer-channel semantics selected); non-positive timeouts; requests queued behind a busy actor. Ask objects older than their timeout; scatter/gather of several AskChannel calls; late hand-over to a busy unbuffered actor.",
+    "C14": "Target held back until its request channel is full; YieldFromIO whose effect uses YieldFrom; back-to-back Start calls. Callers preceding Start(); volume runs of 150000+ requests per caller against an echoing target.",
+    "C15": "Caller completing inside its own YieldFrom; job queue closed under an open pool; pool churn (thousands of short-lived pools closed under load). After-close probes at every fill level.",
+    "C16": "Long lists; nested PMap; one option value reused across calls. Interface result types with nil results; zero-size result types; caller slices with spare capacity.",
+    "C17": "Connection-level faults on the first round trip only; response bodies up to 4 MiB on loopback; slice / map / value body types. Path parameters with Error()/String() methods; literal braces in templates; a serializer whose reader fails half way.",
+    "C18": "Two instances on one client; the held client with a replaced Transport; long histories with redirects and many refused requests. EOF-class transport faults and timeout-kind interceptor errors in long histories; 2..16 goroutines through one instance.",
+    "C19": "Second and mixed record types; forked builders; extreme keys; signed zeros for stability. Same-named record types; invalid UTF-8 keys; append-and-sort-again lists.",
+    "C20": "MarkDone / Result inside the curried function; nested sum types; panicking effects; Equal patterns on pointers. Typed nil map/func/chan probes; invalid UTF-8 against literal regexes; duplicate Equal patterns; named-type, []byte and Stringer probes.",
 }
 
 NOT_YET = "check not built yet in this session (runtime monitoring applies; see DESIGN.md section 5)"
